@@ -335,9 +335,107 @@ struct Outcome {
     /// "finish" or the Debug text of the error.
     end: String,
     stats: FeedStats,
+    /// First disagreement between the accessors (`player_pos`, `input`, `cids`)
+    /// and the running state implied by the items the reader itself reported.
+    accessor_mismatch: Option<String>,
+    accessor_checks: u64,
 }
 
-fn run_reader(stream: &[u8], sched: &Sched, fail_at: Option<usize>) -> Outcome {
+/// Running state implied by the reported items (positions of live players,
+/// last input per client id); compared with the reader's accessors.
+#[derive(Default)]
+struct Shadow {
+    players: std::collections::BTreeMap<i32, (i32, i32)>,
+    inputs: std::collections::BTreeMap<i32, Vec<i32>>,
+    checks: u64,
+    mismatch: Option<String>,
+    /// `cids()` computes `max_cid + 1`; a hostile stream may name client id
+    /// i32::MAX, and the statement does not cover that accessor's arithmetic,
+    /// so the range is only consulted for streams made of generated records.
+    use_cids: bool,
+}
+
+impl Shadow {
+    fn note(&mut self, what: String) {
+        if self.mismatch.is_none() {
+            self.mismatch = Some(what);
+        }
+    }
+    fn check_cid(&mut self, reader: &Reader, cid: i32, after: &str) {
+        if cid < 0 {
+            return;
+        }
+        self.checks += 1;
+        let got = reader.player_pos(cid).map(|p| (p.x, p.y));
+        let want = self.players.get(&cid).cloned();
+        if got != want {
+            self.note(format!("player_pos|after={}|got={:?}|want={:?}", after, got.is_some(), want.is_some()));
+        }
+        let got = reader.input(cid).map(|i| i.to_vec());
+        let want = self.inputs.get(&cid).cloned();
+        if got != want {
+            self.note(format!("input|after={}|got={:?}|want={:?}", after, got.is_some(), want.is_some()));
+        }
+        if self.use_cids {
+            let r = reader.cids();
+            if (want.is_some() || self.players.contains_key(&cid)) && !(r.start <= cid && cid < r.end) {
+                self.note(format!("cids|after={}|known-cid-outside-range", after));
+            }
+        }
+    }
+    fn after_item(&mut self, reader: &Reader, item: &Item) {
+        let (cid, name) = match item {
+            Item::PlayerNew(p) => {
+                self.players.insert(p.cid, (p.pos.x, p.pos.y));
+                (p.cid, "PlayerNew")
+            }
+            Item::PlayerChange(p) => {
+                self.players.insert(p.cid, (p.pos.x, p.pos.y));
+                (p.cid, "PlayerChange")
+            }
+            Item::PlayerOld(p) => {
+                self.players.remove(&p.cid);
+                (p.cid, "PlayerOld")
+            }
+            Item::Input(i) => {
+                self.inputs.insert(i.cid, i.input.to_vec());
+                (i.cid, "Input")
+            }
+            _ => return,
+        };
+        self.check_cid(reader, cid, name);
+    }
+    /// Every client id the reader announces, plus every one the items mentioned.
+    fn full_scan(&mut self, reader: &Reader, after: &str) {
+        if !self.use_cids {
+            let known: Vec<i32> = self.players.keys().chain(self.inputs.keys()).cloned().collect();
+            for cid in known {
+                self.check_cid(reader, cid, after);
+            }
+            return;
+        }
+        let r = reader.cids();
+        if r.start != 0 {
+            self.note(format!("cids|after={}|range-does-not-start-at-0", after));
+        }
+        if r.end > 4096 {
+            return;
+        }
+        for cid in r.clone() {
+            self.check_cid(reader, cid, after);
+        }
+        let known: Vec<i32> = self.players.keys().chain(self.inputs.keys()).cloned().collect();
+        for cid in known {
+            self.check_cid(reader, cid, after);
+        }
+        // one past the announced range must be unknown
+        if reader.player_pos(r.end).is_some() || reader.input(r.end).is_some() {
+            self.note(format!("cids|after={}|state-beyond-range", after));
+        }
+    }
+}
+
+fn run_reader(stream: &[u8], sched: &Sched, fail_at: Option<usize>, generated_records: bool) -> Outcome {
     let mut feed = Feed::new(stream, sched, fail_at);
     let mut buffer = Buffer::new();
     let mut out = Outcome::default();
@@ -354,12 +452,17 @@ fn run_reader(stream: &[u8], sched: &Sched, fail_at: Option<usize>) -> Outcome {
         }
     };
     let limit = 3 * stream.len() + 16;
+    let mut shadow = Shadow { use_cids: generated_records, ..Shadow::default() };
     loop {
         match reader.read(&mut feed, &mut buffer) {
             Ok(Some(item)) => {
                 let (t, s) = canon(&item);
+                shadow.after_item(&reader, &item);
                 out.items.push(s);
                 out.ticks.push(t);
+                if out.items.len() % 97 == 0 {
+                    shadow.full_scan(&reader, "every-97-items");
+                }
                 if out.items.len() > limit {
                     out.end = "item-limit-exceeded".into();
                     break;
@@ -375,6 +478,13 @@ fn run_reader(stream: &[u8], sched: &Sched, fail_at: Option<usize>) -> Outcome {
             }
         }
     }
+    // After an error the accessor state is unspecified (e.g. a duplicate PLAYER_NEW
+    // is refused after the table was touched), so only a clean end is scanned.
+    if out.end == "finish" {
+        shadow.full_scan(&reader, "finish");
+    }
+    out.accessor_mismatch = shadow.mismatch;
+    out.accessor_checks = shadow.checks;
     out.stats = feed.stats;
     out
 }
@@ -1123,7 +1233,7 @@ fn minimize(version: u8, header_json: &str, recs: &[Rec], clause: &str, class: &
         };
         let h = Hist { version, mode: "min", size: Size::Short, header_json: header_json.to_string(), recs: recs.to_vec() };
         let (stream, _) = h.encode();
-        match catch(|| run_reader(&stream, &Sched::Whole, None)) {
+        match catch(|| run_reader(&stream, &Sched::Whole, None, true)) {
             Ok(out) => analyze(recs, &exp, &out).iter().any(|f| f.clause == clause && f.class == class),
             Err(_) => false,
         }
@@ -1271,11 +1381,16 @@ fn compare(ctx: &mut Ctx, case: &Case, what: &str, bytes: &[u8], reference: &Out
 
 /// Runs one schedule under `catch`; a panic is reported and `None` returned.
 fn run_checked(ctx: &mut Ctx, case: &Case, what: &str, bytes: &[u8], sched: &Sched, fail_at: Option<usize>, variant: &Value) -> Option<Outcome> {
-    match catch(|| run_reader(bytes, sched, fail_at)) {
+    match catch(|| run_reader(bytes, sched, fail_at, what != "corrupted")) {
         Ok(out) => {
             account(ctx, &out);
             if out.stats.empty_offers > 0 {
                 ctx.violation("no-return", "Callback::read_at_most", "empty-buffer-offered", json!({"schedule": sched.to_json()}),
+                    case.data(json!({"what": what, "variant": variant, "bytes_hex": hex(bytes)})));
+            }
+            ctx.count("accessor_checks", out.accessor_checks);
+            if let Some(m) = &out.accessor_mismatch {
+                ctx.violation("running-sum", "Reader::player_pos/input/cids", &format!("{}|{}", what, m), json!({"schedule": sched.to_json(), "mismatch": m}),
                     case.data(json!({"what": what, "variant": variant, "bytes_hex": hex(bytes)})));
             }
             if out.end == "item-limit-exceeded" {
